@@ -68,8 +68,10 @@ def run_variant(args):
     root, v, kind = args
     from .. import props  # noqa: F401  (registers rules)
     from ..runner import run_rules
+    from ..runner import RULES as _R
+    v = {**v, "rules": [r for r in v["rules"] if r in _R]}
     ov = overlay_for(root, v)
-    if ov is None:
+    if ov is None or not v["rules"]:
         return (v["id"], kind, "n/a", "")
     try:
         for fn, s in ov.items():
